@@ -63,7 +63,11 @@ def compute_signature(
             # Hash on UFL signature and points
             signature = ufl.algorithms.signature.compute_expression_signature(expr, rn)
             object_signature += signature
-            object_signature += repr(points)
+            # NOTE: repr(points) is not injective: numpy prints 8 significant digits
+            # and elides large arrays, so hash the actual data instead
+            _points = np.ascontiguousarray(points)
+            object_signature += f"{_points.shape}{_points.dtype}"
+            object_signature += hashlib.sha1(_points.tobytes()).hexdigest()
 
             kind = "expression"
         else:
